@@ -1,12 +1,23 @@
-(* C02 - All surface spellings of one abstract tree parse to that same tree.
-   Proved here (token level, all inputs, PARTIAL): the layout freedoms are invisible to the tokenizer -
-   any run of blanks/newlines before a token, a structure-context comment up to the end of its line,
-   and the quoted spelling of a word (C03) yield the same token stream.  The tree-level statement
-   (terminators, continuations, nesting vs. dotted names, off regions, '!' exactness) is tied to the
-   code by the correspondence stream over the layout grammar and checked by the oracle against the
-   abstract tree; no parser-level theorem yet. *)
+(* C02 - All surface spellings of one abstract tree parse to that same tree.   PARTIAL.
+   Token level (all inputs): blank runs, structure-context comments and the quoted spelling of a word
+   are invisible to the tokenizer.
+   Parser level (all inputs, every oracle; Proofs/ParserLayout.v):
+   - layout in front of ANY object at ANY depth is irrelevant: for a prefix p made of blanks, newlines and
+     full-line comments, collect_objects on p ++ s equals collect_objects on s one position later
+     (C02_layout_before_any_object), and the whole document modulo line numbers (C02_layout_prefix);
+   - blanks around '=' are irrelevant (C02_blanks_around_equals);
+   - a newline and a ';' terminate a value alike (C02_semicolon_or_newline), a trailing '# comment' after a
+     value changes nothing (C02_trailing_comment);
+   - '!' disables exactly the construct it precedes and nothing else: the parse of "!name..." is the parse
+     of "name..." with the disabled flag set on that one object (the innermost one for a dotted name),
+     identical errors included (C02_bang_disables_exactly_one, C02_bang_at_any_iteration);
+   - results do not depend on the fuel (C02_fuel_irrelevant).
+   Not proved (decided by the correspondence stream over the layout grammar + oracle against the
+   abstract tree, on every run): lifting these iteration-level facts through an arbitrary preceding text
+   to "two renderings of one abstract tree parse alike"; backslash / quoted continuation lines; nesting
+   versus dotted names; off regions; '!' on attributes at document level. *)
 From Coq Require Import List Ascii String.
-From Phil Require Import Base Tokenizer LexProofs QuoteProofs.
+From Phil Require Import Base Tokenizer Tree Parser LexProofs QuoteProofs ParserTotal ParserLayout.
 Import ListNotations.
 Local Open Scope char_scope.
 
@@ -28,6 +39,66 @@ Theorem C02_quoted_word_any_context_partial : forall σ q s rest line,
   nw σ false (quote_str q s ++ rest) line = TWord (mkword s q line) rest (line + count_nl s).
 Proof. exact nw_quoted. Qed.
 Print Assumptions C02_quoted_word_any_context_partial.
+
+Theorem C02_layout_before_any_object : forall o f p s line nid stop start prev active acc, layout p ->
+  (stop = true \/ count_nl p = 0 \/ nw s0 false s (line + count_nl p) <> TEnd) ->
+  cobj o f (p ++ s) line nid stop start prev active acc
+  = cobj o f s (line + count_nl p) nid stop start prev active acc.
+Proof. exact cobj_layout. Qed.
+Print Assumptions C02_layout_before_any_object.
+
+Theorem C02_layout_prefix : forall o p s, layout p ->
+  erase_res (parse o (p ++ s)) = erase_res (parse o s).
+Proof. exact parse_layout_prefix. Qed.
+Print Assumptions C02_layout_prefix.
+
+Theorem C02_blanks_around_equals : forall o f name b1 b2 tl line nid stop start prev active acc,
+  is_ident name = true -> eqs name include_w = false ->
+  forallb isspace b1 = true -> forallb isspace b2 = true -> count_nl b1 = 0 -> count_nl b2 = 0 ->
+  cobj o (S f) (name ++ b1 ++ "=" :: b2 ++ tl) line nid stop start prev active acc
+  = cobj o (S f) (name ++ "=" :: tl) line nid stop start prev active acc.
+Proof. exact def_blanks_irrelevant. Qed.
+Print Assumptions C02_blanks_around_equals.
+
+Theorem C02_semicolon_or_newline : forall o name txt w ws rest,
+  is_ident name = true -> eqs name include_w = false ->
+  vtext 1 txt (w :: ws) ->
+  next_starts_object rest 2 = true -> not_directive rest 1 ->
+  erase_res (parse o (name ++ "=" :: txt ++ nl :: rest)) = erase_res (parse o (name ++ "=" :: txt ++ ";" :: rest)).
+Proof. exact parse_semicolon_newline_words. Qed.
+Print Assumptions C02_semicolon_or_newline.
+
+Theorem C02_trailing_comment : forall o name txt w ws b body rest,
+  is_ident name = true -> eqs name include_w = false ->
+  vtext 1 txt (w :: ws) ->
+  forallb isspace b = true -> count_nl b = 0 -> b <> [] ->
+  plainb body = true -> delim s1 (body ++ [nl]) = true ->
+  next_starts_object rest 2 = true ->
+  parse o (name ++ "=" :: txt ++ b ++ "#" :: body ++ nl :: rest) = parse o (name ++ "=" :: txt ++ nl :: rest).
+Proof. exact parse_trailing_comment. Qed.
+Print Assumptions C02_trailing_comment.
+
+Theorem C02_bang_disables_exactly_one : forall o name rest,
+  is_ident name = true -> delim s0 rest = true ->
+  parse o ("!" :: name ++ rest)
+  = on_first (dis_depth (length (splitdot name) - 1)) (parse o (name ++ rest)).
+Proof. exact bang_object. Qed.
+Print Assumptions C02_bang_disables_exactly_one.
+
+Theorem C02_bang_at_any_iteration : forall o f c s line nid stop start prev active acc,
+  wstart s0 c = true -> c <> "!" -> c <> "." ->
+  cobj o f ("!" :: c :: s) line nid stop start prev active acc
+  = nth_res (length (flushed active acc)) (dis_depth (name_depth (c :: s) line))
+      (cobj o f (c :: s) line nid stop start prev active acc).
+Proof. exact cobj_bang. Qed.
+Print Assumptions C02_bang_at_any_iteration.
+
+Theorem C02_fuel_irrelevant : forall o f g s line nid stop start prev active acc,
+  length s < f -> length s < g ->
+  cobj o f s line nid stop start prev active acc = cobj o g s line nid stop start prev active acc.
+Proof. exact cobj_fuel_enough. Qed.
+Print Assumptions C02_fuel_irrelevant.
+
 
 (* non-vacuity: blanks, an own-line comment and a newline in front of a token change nothing but the line *)
 Example C02_example :
